@@ -296,8 +296,56 @@ fn e3(ctx: &Ctx, res: &mut PartResult, length_prefix: bool, prefix: Option<&'sta
     res.sample(json!({"config": {"max_len": 24, "length_prefix": length_prefix, "prefix": prefix}, "ops": format!("{:?}", [&alpha[0], &alpha[10], &alpha[15], &alpha[13]])}));
 }
 
+/// The same serialisation reached the way an exporter reaches it: through `State::flush` (which decides which prefix and
+/// labels a metric gets) into the writer. Every (prefix, name) pair over prefixes {none, "", a, ab, abc, b.} and names
+/// that begin with, equal, contain or have nothing to do with the prefix text, for the three kinds: the name on the wire
+/// is `<prefix>.<name>` (the plain name without a prefix), tags are the global label followed by the key's own.
+fn flush_prefix_part(res: &mut PartResult) {
+    use metrics::Recorder;
+    use metrics_exporter_dogstatsd::verif_driver::Driver;
+    static META: metrics::Metadata<'static> = metrics::Metadata::new("t", metrics::Level::INFO, None);
+    res.engine = "E3 prefix x name x kind through State::flush + PayloadWriter".into();
+    let mut states = vseq::States::new();
+    let prefixes: [Option<&str>; 6] = [None, Some(""), Some("a"), Some("ab"), Some("abc"), Some("b.")];
+    let names = ["", "a", "ab", "abc", "abcd", "a.b", "ab.c", "b", "b.", "b.x", "xab", "z"];
+    for prefix in prefixes {
+        for global in [false, true] {
+            for name in names {
+                for kind in 0..3 {
+                    res.executions += 1;
+                    res.transitions += 2;
+                    let gl = if global { vec![Label::new("g", "1")] } else { vec![] };
+                    let (mut drv, rec) = Driver::new(false, false, 16, true, gl, prefix.map(|p| p.to_string()), 8192, false);
+                    let key = Key::from_parts(name.to_string(), vec![Label::new("k", "v")]);
+                    match kind {
+                        0 => rec.register_counter(&key, &META).increment(3),
+                        1 => rec.register_gauge(&key, &META).set(1.5),
+                        _ => rec.register_histogram(&key, &META).record(2.5),
+                    }
+                    let payloads = drv.flush_once();
+                    let want_name = match prefix {
+                        Some(p) => format!("{}.{}", p, name),
+                        None => name.to_string(),
+                    };
+                    let want_tags: Vec<String> = if global { vec!["g:1".into(), "k:v".into()] } else { vec!["k:v".into()] };
+                    let msgs: Vec<statsd::Msg> = payloads.iter().filter_map(|p| statsd::parse_message(p).ok()).collect();
+                    states.add(&(prefix.is_some(), msgs.len()));
+                    let cfg = json!({"flush_prefix": [format!("{:?}", prefix), name, kind]});
+                    let ok = msgs.len() == 1 && payloads.len() == 1 && msgs[0].name == want_name && msgs[0].tags == want_tags && msgs[0].ty == ['c', 'g', 'd'][kind];
+                    if !ok {
+                        res.violation("payload-name-wrong", format!("prefix {:?}, global labels {}, {} named {:?}: the flush emitted {:?}, expected one message named {:?} with tags {:?}", prefix, global, ["counter", "gauge", "histogram"][kind], name, payloads.iter().map(|p| String::from_utf8_lossy(p).to_string()).collect::<Vec<_>>(), want_name, want_tags), cfg);
+                    }
+                }
+            }
+        }
+    }
+    res.states = states.len();
+    res.distinct_outcomes = states.len();
+    res.sample(json!({"prefix": "ab", "name": "abc", "expected_on_the_wire": "ab.abc"}));
+}
+
 fn parts(ctx: &Ctx) -> Vec<PartSpec> {
-    let mut v = Vec::new();
+    let mut v = vec![PartSpec::new("e3-state-flush-prefix-x-name", json!({"flush_prefix": true}))];
     let depth = if ctx.quick() { 3 } else { 4 };
     for lp in [false, true] {
         for (pi, _) in [None, Some("p"), Some("pre")].iter().enumerate() {
@@ -314,6 +362,10 @@ fn parts(ctx: &Ctx) -> Vec<PartSpec> {
 
 fn run(ctx: &Ctx, spec: &PartSpec) -> PartResult {
     let mut res = PartResult::new(&spec.name, "");
+    if spec.arg["flush_prefix"].as_bool() == Some(true) {
+        flush_prefix_part(&mut res);
+        return res;
+    }
     let prefix = [None, Some("p"), Some("pre")][spec.arg["prefix"].as_u64().unwrap_or(0) as usize];
     e3(ctx, &mut res, spec.arg["lp"].as_bool().unwrap_or(false), prefix, spec.arg["global"].as_bool().unwrap_or(false), spec.arg["depth"].as_u64().unwrap_or(3) as usize);
     res
@@ -323,7 +375,7 @@ fn main() {
     driver::main(CheckDef {
         prop: "C09",
         level: "model_checking",
-        rule: "for every max_payload_len in {0..72 (thorough 0..260), boundary values around the longest payload, 8192} x length prefix {off,on} x prefix {None,p,pre} x global labels {[],[g:1]}: every sequence of the stated depth over 19 operations (counter/gauge with extreme values and optional timestamp, histogram/distribution with 0,1,2,3,40 values incl. NaN / +-inf / -0 / MAX / MIN_POSITIVE and optional sample rate, the same key with two different sample rates, names of length 0..12 and one of 20000 bytes, labels with empty value, drain) on one real PayloadWriter, plus a final drain, with a second, unrelated writer used before every operation (what it emits must equal what it emits when used alone); every drained payload is parsed by an independent DogStatsD parser and matched against the writes since the previous drain (name, type, tags, values in order at round-trip precision, length prefix, size limit, written/dropped accounting); distinct = distinct (config class, drain shape) states",
+        rule: "for every max_payload_len in {0..72 (thorough 0..260), boundary values around the longest payload, 8192} x length prefix {off,on} x prefix {None,p,pre} x global labels {[],[g:1]}: every sequence of the stated depth over 19 operations (counter/gauge with extreme values and optional timestamp, histogram/distribution with 0,1,2,3,40 values incl. NaN / +-inf / -0 / MAX / MIN_POSITIVE and optional sample rate, the same key with two different sample rates, names of length 0..12 and one of 20000 bytes, labels with empty value, drain) on one real PayloadWriter, plus a final drain, with a second, unrelated writer used before every operation (what it emits must equal what it emits when used alone); every drained payload is parsed by an independent DogStatsD parser and matched against the writes since the previous drain (name, type, tags, values in order at round-trip precision, length prefix, size limit, written/dropped accounting); plus, through State::flush (which chooses the prefix and labels a metric gets), every (prefix, name) pair over 6 prefixes incl. the empty one and 12 names that begin with / equal / contain the prefix text, for the three kinds; distinct = distinct (config class, drain shape) states",
         assumptions: &["strings in names/tags are benign (no ':' '|' ',' or newline): the DogStatsD protocol has no escaping and the property does not ask for any"],
         parts,
         run,
